@@ -1,5 +1,5 @@
-(** Invariants of the GoChannel registry protocol (GoChannel/Reg.v), for every schedule and any
-    number of threads / subscriptions / topics / messages. *)
+(** Registry protocol of the GoChannel (GoChannel/Reg.v), part 1: counting lemmas, the tactics
+    shared by all invariant proofs, and R0 - the lock-ownership invariant [Inv0]. *)
 From WM Require Import Base.Prelude GoChannel.Reg.
 
 (** * Counting *)
@@ -203,6 +203,17 @@ Ltac ground h :=
          | E : wpending _ = _ |- _ => rewrite E in h
          | E : tlock _ _ = _ |- _ => rewrite E in h
          end; simpl in h.
+Ltac ground_goal :=
+  repeat match goal with
+         | E : thr _ _ = _ |- _ => rewrite E
+         | E : sb _ _ = _ |- _ => rewrite E
+         | E : td _ _ = _ |- _ => rewrite E
+         | E : clock _ = _ |- _ => rewrite E
+         | E : writer _ = _ |- _ => rewrite E
+         | E : readers _ = _ |- _ => rewrite E
+         | E : wpending _ = _ |- _ => rewrite E
+         | E : tlock _ _ = _ |- _ => rewrite E
+         end; simpl.
 Ltac inst C v := let h := fresh "Ci" in pose proof (C v) as h; ground h.
 Ltac inst2 C v w := let h := fresh "Ci" in pose proof (C v w) as h; ground h.
 (** the thread / subscription that takes the step *)
@@ -388,4 +399,5 @@ Qed.
 
 Theorem reg_locks pers blk fx ls : Inv0 (grun (ginit pers blk fx) ls).
 Proof. apply grun_ind; [exact inv0_step|apply inv0_init]. Qed.
+
 
